@@ -26,6 +26,7 @@ type Op struct {
 type Action struct {
 	Ops     []Op   `json:"ops"`
 	Native  bool   `json:"native,omitempty"`
+	Noop    bool   `json:"noop,omitempty"`     // runs in the shipped noop interpreter (stub "same")
 	InPlace bool   `json:"in_place,omitempty"` // native guards only: works directly on the bindings it is handed
 	Stub    string `json:"stub,omitempty"`     // native only: "", "nil-err", "partial-err", "nil-bs"
 }
@@ -157,6 +158,7 @@ func (a *Action) Exec(bs map[string]interface{}) ExecResult {
 		w = map[string]interface{}{}
 	}
 	var out []interface{}
+	gi := 0.0
 	for _, op := range a.Ops {
 		switch op.Kind {
 		case "emit":
@@ -179,6 +181,10 @@ func (a *Action) Exec(bs map[string]interface{}) ExecResult {
 			if v, ok := w[op.K]; !ok || !scalarEq(v, op.V) {
 				return ExecResult{Outcome: "null", Emitted: out}
 			}
+		case "globalinc":
+			// counts in a global of the script's runtime: every execution starts from a fresh one
+			gi++
+			w["g"] = 2 * gi
 		case "randstr":
 			w["r"] = "string"
 		case "matchstore":
